@@ -1168,8 +1168,8 @@ BOUNDED_STANDS_IN = {
     "C14": "SortFilter/SortNaturalFilter (std sort_by with the nil-safe comparators), UniqFilter, CompactFilter, ConcatFilter, MapFilter, WhereFilter, ReverseFilter, First/Last/Join (iterator chains over dyn ValueView), as_sequence",
     "C08": "effects across the partial boundary (assignments through RefCell, interrupts in the sandbox's own registers, shared counters), the partial stores (eager compiler), render `with`/`for` argument parsing",
     "C09": "hidden state anywhere outside the runtime (statics, caches in renderables or partial stores), Registers::default, the lazily compiled partial store; renders that fail midway",
-    "C11": "value_eq / value_cmp on arrays, objects, nil, states and strings (iterator chains over dyn ValueView), construction independence of objects; Date/DateTime are not covered",
-    "C12": "forwarding ValueView impls of Value / ValueCow / &T, serde_json round trips, to_value integer narrowing; derive macros are not covered",
+    "C11": "value_eq / value_cmp on arrays, objects, nil, states, strings, dates and date-times (iterator chains over dyn ValueView; the Date/DateTime arms of scalar_eq/scalar_cmp), construction independence of objects",
+    "C12": "serde_json round trips (incl. date-times with a sub-millisecond fraction), to_value / from_value integer narrowing, structs exposed through derive(ObjectView, ValueView) against the same struct converted through serde; the forwarding impls themselves are under contract (unit views)",
     "C05": "For::render_to / TableRow::render_to glue, Range::evaluate, get_array, evaluate_attr, break/continue handling (state behind RefCell)",
     "C06": "value_eq / value_cmp (veq/vcmp are uninterpreted in the contracts), query_state tables, parse_condition / CaseBlock::parse (pest tokens)",
     "C07": "Variable::evaluate, find/try_find/augmented_get, parse_literal and literal printing",
@@ -1185,8 +1185,8 @@ BATTERY_BOUNDS = {
     "C14": "all orderings of up to 4 elements drawn from pools of integers with duplicates and nils, strings with duplicates and nils, all-nil, singleton and empty arrays (400 arrays) for sort/reverse/uniq/compact/concat/size/join/first/last; case-differing strings for sort_natural; all orderings of up to 4 objects from 7 (property present, absent, nil, false, duplicates) for map/where/compact/sort by property incl. stability",
     "C08": "460 caller programs x 7 partials: include and render with 4 argument forms, from outside and inside loops, reading/assigning/counting/breaking/continuing over shared names, missing and unparsable partials on executed and dead paths; against a reference interpreter of the two scoping disciplines",
     "C09": "all histories of 3 render calls over 3 templates (stateful constructs, a render failing midway inside a loop after a break and inside capture, include/render of a partial) x 2 data objects sharing one parser, and all histories of 5 calls over 2 templates x 2 data; every call compared with a freshly built parser",
-    "C11": "all ordered pairs of a 42-value pool (nil, booleans, integers incl. 2^53 and the i64 bounds, floats incl. +-0, inf, NaN, strings, empty/blank, arrays and objects nested two deep incl. multi-key objects), each value built twice independently",
-    "C12": "the same 42 values through to_value, ValueCow::{Owned,Borrowed}, as_view and serde_json; integers at the u64/i64 boundary",
+    "C11": "all ordered pairs of a 49-value pool (nil, booleans, integers incl. 2^53 and the i64 bounds, floats incl. +-0, inf, NaN, strings, dates and date-times on equal and different days, empty/blank, arrays and objects nested two deep incl. multi-key objects), each value built twice independently",
+    "C12": "the same 49 values through to_value, ValueCow::{Owned,Borrowed}, as_view, Option/& and serde_json; integers at the u64/i64 boundary; 6 instances of 3 derived structs (all-default, filled, blank-ish, nested) against their serde conversion on every state query, kind, size, key and member",
     "C05": "arrays of length 0..4 x offset {absent,0,1,2,5} x limit {absent,0,1,2,5} x reversed; ranges incl. empty/descending; tablerow cols {absent,1,2,3}; break/continue at index 1..3 in two nesting levels",
     "C06": "all ordered pairs of a 16-value pool for the ==/!=/</>/<=/>=/case laws; truthiness of each; if/elsif chains of 1..4 arms with all truth assignments; case arms incl. empty bodies; or/and grouping",
     "C07": "arrays of length 0..3, every index in [-len-2, len+1] as literal, variable and nested path; integer literals at the 64-bit boundaries",
